@@ -383,4 +383,18 @@ def feature_class(d):
                     G = fm[g]
                     if model.is_derived(G) or (any(w > 1 for _, w in G["levels"]) and not all(g in c2 for c2 in cs)):
                         feats.append("crossed-derived-depends-on-derived")
+    # a crossed within-trial derived factor with a source outside the crossing, in a block whose trial count is raised by MinimumTrials (a partial last
+    # run draws a subset of the crossing's combinations; the numbers of completions of the combinations can differ)
+    def has_min(node):
+        if any(c[0] == "MinimumTrials" for c in node.get("constraints", [])):
+            return True
+        k = node["kind"]
+        subs = [node["block"]] if k == "repeat" else node.get("blocks", []) if k == "merge" else [node["outer"], node["inner"]] if k == "nest" else []
+        return any(has_min(b) for b in subs)
+    if has_min(d["block"]):
+        for c in cs:
+            for f in c:
+                F = fm[f]
+                if model.is_derived(F) and F["derive"]["width"] == 1 and any(g not in c for g in F["derive"]["deps"]):
+                    feats.append("partial-run+crossed-within-derived-with-uncrossed-source")
     return sorted(set(feats))
